@@ -5,19 +5,23 @@ package dicescript
 import "sync/atomic"
 
 // Work meter for the verification harness: counts what the operation budget is supposed to bound.
-var verifDispatches, verifRolls, verifFates int64
+var verifDispatches, verifRolls, verifFates, verifDraws int64
 
 func verifMeterDispatch() { atomic.AddInt64(&verifDispatches, 1) }
 func verifMeterRoll()     { atomic.AddInt64(&verifRolls, 1) }
 func verifMeterFate()     { atomic.AddInt64(&verifFates, 1) }
 
-// VerifMeterReset zeroes the meter; VerifMeterRead returns (instruction dispatches, Roll calls, Fate instructions).
+// a Roll call made for a container method (shuffle, rand): a random draw, not a die
+func verifMeterDraw() { atomic.AddInt64(&verifDraws, 1) }
+
+// VerifMeterReset zeroes the meter; VerifMeterRead returns (instruction dispatches, dice rolled, Fate instructions).
 func VerifMeterReset() {
 	atomic.StoreInt64(&verifDispatches, 0)
 	atomic.StoreInt64(&verifRolls, 0)
 	atomic.StoreInt64(&verifFates, 0)
+	atomic.StoreInt64(&verifDraws, 0)
 }
 
 func VerifMeterRead() (int64, int64, int64) {
-	return atomic.LoadInt64(&verifDispatches), atomic.LoadInt64(&verifRolls), atomic.LoadInt64(&verifFates)
+	return atomic.LoadInt64(&verifDispatches), atomic.LoadInt64(&verifRolls) - atomic.LoadInt64(&verifDraws), atomic.LoadInt64(&verifFates)
 }
